@@ -3,9 +3,12 @@
 import os, json, subprocess, shutil, re, sys
 OUT = "/verif/seeded"
 needs = {}
-for d in sorted(os.listdir("/tmp/seedout")):
-    for v in ("a", "b"):
-        src = "/tmp/seedout/%s/%s" % (d, v)
+import itertools
+items = [("/tmp/seedout", d, v) for d in sorted(os.listdir("/tmp/seedout")) for v in ("a", "b")] + \
+        [("/tmp/seedout2", d, v) for d in sorted(os.listdir("/tmp/seedout2")) for v in ("c", "d")]
+for (base, d, v) in items:
+    if True:
+        src = "%s/%s/%s" % (base, d, v)
         if not os.path.exists(src + "/patch.diff"):
             continue
         sid = "%s%s" % (d, v)
@@ -30,7 +33,7 @@ for d in sorted(os.listdir("/tmp/seedout")):
         notes = open(src + "/notes.md").read() if os.path.exists(src + "/notes.md") else ""
         meta = {
             "id": sid, "property": d,
-            "origin": "written by an independent sub-agent that saw only the property text and a scratch worktree of /repo",
+            "origin": "written by an independent sub-agent that saw only the property text and a scratch worktree of /repo" + (" (second round: the agent was also told which ideas the first round had used, and asked for less obvious places)" if v in ("c", "d") else ""),
             "what_it_needs_to_manifest": (re.findall(r"(?im)^.*(?:needs?|trigger|manifest)[^\n]*$", notes) or [""])[0][:400],
             "confirmed_by_me": {
                 "scratch_worktree": "git -C /repo worktree add --detach /tmp/seedconfirm HEAD (removed afterwards)",
